@@ -9,6 +9,8 @@
 // by the invariant, not sampled.  Bounded in N (number of replacements held): stated per harness.
 use super::*;
 use crate::RawStringSource;
+#[allow(unused_imports)]
+use itertools::Itertools as _; // keeps the crate loaded so that the contract stubs below resolve even if the code stops using it
 
 fn any_enforce() -> ReplacementEnforce {
   let k: u8 = kani::any();
@@ -66,6 +68,35 @@ fn state(n: usize) -> ReplaceSource<RawStringSource> {
   kani::assume(inv(&s));
   s
 }
+// ---- contracts of the sort functions the code may call --------------------------------------------------------
+// A caller is checked against its callee's CONTRACT, not its body: itertools' / std's `*_unstable*` sorts promise a
+// sorted permutation and nothing about the order of equal elements (their implementations happen to be stable on
+// short inputs, so running the real body within the bound n <= 3 would hide the difference).  The stable family
+// (`sorted_by`, `sort_by`, ...) is documented stable for every length and runs with its real body here.
+trait UnstableSortContracts: Iterator {
+  fn any_sorted_permutation<F>(self, mut cmp: F) -> std::vec::IntoIter<Self::Item>
+  where Self: Sized, F: FnMut(&Self::Item, &Self::Item) -> std::cmp::Ordering {
+    let mut v: Vec<Self::Item> = self.collect();
+    let n = v.len();
+    let mut k = 0;
+    while k < 4 {
+      let i: usize = kani::any();
+      if n >= 2 && i < n - 1 && kani::any() { v.swap(i, i + 1); }
+      k += 1;
+    }
+    let mut j = 1;
+    while j < n { kani::assume(cmp(&v[j - 1], &v[j]) != std::cmp::Ordering::Greater); j += 1; }
+    v.into_iter()
+  }
+  fn sorted_unstable_by_contract<F>(self, cmp: F) -> std::vec::IntoIter<Self::Item>
+  where Self: Sized, F: FnMut(&Self::Item, &Self::Item) -> std::cmp::Ordering { self.any_sorted_permutation(cmp) }
+  fn sorted_unstable_by_key_contract<K, F>(self, mut f: F) -> std::vec::IntoIter<Self::Item>
+  where Self: Sized, K: Ord, F: FnMut(&Self::Item) -> K { self.any_sorted_permutation(|a, b| f(a).cmp(&f(b))) }
+  fn sorted_unstable_contract(self) -> std::vec::IntoIter<Self::Item>
+  where Self: Sized, Self::Item: Ord { self.any_sorted_permutation(|a, b| a.cmp(b)) }
+}
+impl<T: Iterator> UnstableSortContracts for T {}
+
 fn same_key(a: &Replacement, b: &Replacement) -> bool { a.start == b.start && a.end == b.end && a.enforce == b.enforce }
 
 #[kani::proof]
@@ -121,15 +152,27 @@ fn sorted_replacement_contract(n: usize) {
 }
 #[kani::proof]
 #[kani::unwind(6)]
+#[kani::stub(itertools::Itertools::sorted_unstable_by, UnstableSortContracts::sorted_unstable_by_contract)]
+#[kani::stub(itertools::Itertools::sorted_unstable_by_key, UnstableSortContracts::sorted_unstable_by_key_contract)]
+#[kani::stub(itertools::Itertools::sorted_unstable, UnstableSortContracts::sorted_unstable_contract)]
 fn sorted_replacement_contract_n0() { sorted_replacement_contract(0) }
 #[kani::proof]
 #[kani::unwind(6)]
+#[kani::stub(itertools::Itertools::sorted_unstable_by, UnstableSortContracts::sorted_unstable_by_contract)]
+#[kani::stub(itertools::Itertools::sorted_unstable_by_key, UnstableSortContracts::sorted_unstable_by_key_contract)]
+#[kani::stub(itertools::Itertools::sorted_unstable, UnstableSortContracts::sorted_unstable_contract)]
 fn sorted_replacement_contract_n1() { sorted_replacement_contract(1) }
 #[kani::proof]
 #[kani::unwind(6)]
+#[kani::stub(itertools::Itertools::sorted_unstable_by, UnstableSortContracts::sorted_unstable_by_contract)]
+#[kani::stub(itertools::Itertools::sorted_unstable_by_key, UnstableSortContracts::sorted_unstable_by_key_contract)]
+#[kani::stub(itertools::Itertools::sorted_unstable, UnstableSortContracts::sorted_unstable_contract)]
 fn sorted_replacement_contract_n2() { sorted_replacement_contract(2) }
 #[kani::proof]
 #[kani::unwind(7)]
+#[kani::stub(itertools::Itertools::sorted_unstable_by, UnstableSortContracts::sorted_unstable_by_contract)]
+#[kani::stub(itertools::Itertools::sorted_unstable_by_key, UnstableSortContracts::sorted_unstable_by_key_contract)]
+#[kani::stub(itertools::Itertools::sorted_unstable, UnstableSortContracts::sorted_unstable_contract)]
 fn sorted_replacement_contract_n3() { sorted_replacement_contract(3) }
 
 fn clone_preserves_inv(n: usize) {
